@@ -63,7 +63,7 @@ def as_identifier(ident, reader=None):
         return Float(ident)
     except ValueError:
         pass
-    if ident not in ("j", "J"):
+    if ident.rstrip("_,") not in ("j", "J"):
         try:
             return Complex(ident)
         except ValueError:
